@@ -304,6 +304,7 @@ def reconstruct (env : Env) (be : Backend) (i : Inst) (frags : List Bytes) (frag
   let m := i.m
   if dest < 0 || dest ≥ ((k + m : Nat) : Int) then failRc EINVALIDPARAMS else
   let dest := dest.toNat
+  if fragLen < Hdr.size then failRc EBADHEADER else
   if frags.any isInvalidHeader then failRc EBADHEADER else
   match getFragmentPartition k m frags with
   | .error e => .error (.rc e)
